@@ -571,7 +571,10 @@ class MinFlowDecomp(pathmodel.AbstractPathModelDAG): # Note that we inherit from
         # The synthetic source/sink edges of stG need not be covered either
         self._lowerbound_k = max(self._lowerbound_k, stG.get_width(edges_to_ignore=list(ignored_edges) + list(stG.source_sink_edges)))
 
-        if self.optimization_options.get("use_min_gen_set_lowerbound", MinFlowDecomp.use_min_gen_set_lowerbound):  
+        # The min-gen-set bound reasons about the flow values of ALL weighted edges and the total source flow;
+        # it is only valid when none of the weighted edges is ignored.
+        ignores_weighted_edges = any(self.G.has_edge(*e) and self.flow_attr in self.G.edges[e] for e in self.edges_to_ignore)
+        if self.optimization_options.get("use_min_gen_set_lowerbound", MinFlowDecomp.use_min_gen_set_lowerbound) and not ignores_weighted_edges:  
             mingenset_lowerbound = self._get_lowerbound_with_min_gen_set()
             if mingenset_lowerbound is not None:
                 self._lowerbound_k = max(self._lowerbound_k, mingenset_lowerbound)
